@@ -1,0 +1,38 @@
+"""
+Optional event trace used by external verification tooling.
+
+Disabled unless the environment variable DASHLIVE_VERIF_TRACE is set when this
+module is first imported. When disabled, emit() does nothing and wrap() returns
+nothing, so no behaviour changes.
+"""
+import os
+import threading
+from typing import Any
+
+_ENABLED: bool = bool(os.environ.get('DASHLIVE_VERIF_TRACE'))
+_lock = threading.Lock()
+_events: list[dict[str, Any]] = []
+_seq: int = 0
+
+
+def enabled() -> bool:
+    return _ENABLED
+
+
+def emit(event: str, **fields: Any) -> None:
+    """Append one event (with a per-process sequence number)"""
+    global _seq
+    if not _ENABLED:
+        return
+    with _lock:
+        _seq += 1
+        _events.append({'seq': _seq, 'ev': event, **fields})
+
+
+def drain() -> list[dict[str, Any]]:
+    """Return and clear all recorded events"""
+    global _events
+    with _lock:
+        rv = _events
+        _events = []
+    return rv
